@@ -469,6 +469,10 @@ func (gen *generator) getIndex(index ast.Constant) gep.Index {
 		return gep.Index{HasVal: false}
 	case *ast.PoisonConst:
 		return gep.Index{HasVal: false}
+	case ast.ConstantExpr:
+		// Constant expression indices (e.g. `i64 add (i64 1, i64 2)`) are valid;
+		// they have no known value and may thus not index into struct types.
+		return gep.Index{HasVal: false}
 	default:
 		// TODO: add support for more constant expressions.
 		// TODO: remove debug output.
